@@ -238,6 +238,26 @@ theorem getitem_code (truth : Term → Bool) :
       let value := Term.app "super().__getitem__" [Term.sym "index"]
       Out.ret [] (if truth (Term.app "isinstance" [value, Term.sym "list"]) then Term.app "._new" [Term.sym "self", value] else value) := rfl
 
+/-! ### signatures: where data names travel as keyword names, the method has no named parameter of its own
+
+  `sort(**key_dir_pairs)`, `modify(**key_function_pairs)`, `filter(function=None, **key_value_pairs)` … take KEYS of the
+  items as keyword names (and `aggregate` hands its group keys to `sort` that way).  Every additional named parameter is
+  a key name that can no longer be used; the signatures are therefore part of the obligation. -/
+theorem keyword_carrying_signatures :
+    ListOfDicts_sort_signature = ["self", "**key_dir_pairs"] ∧
+    ListOfDicts_modify_signature = ["self", "**key_function_pairs"] ∧
+    ListOfDicts_modify_if_signature = ["self", "predicate", "**key_function_pairs"] ∧
+    ListOfDicts_fill_missing_keys_signature = ["self", "**key_value_pairs"] ∧
+    ListOfDicts_rename_signature = ["self", "**to_from_pairs"] ∧
+    ListOfDicts_filter_signature = ["self", "function=None", "**key_value_pairs"] ∧
+    ListOfDicts_filter_out_signature = ["self", "function=None", "**key_value_pairs"] ∧
+    ListOfDicts_unique_signature = ["self", "*keys"] ∧ ListOfDicts_select_signature = ["self", "*keys"] ∧
+    ListOfDicts_unselect_signature = ["self", "*keys"] ∧
+    ListOfDicts_append_signature = ["self", "item"] ∧ ListOfDicts_extend_signature = ["self", "other"] ∧
+    ListOfDicts_insert_signature = ["self", "index", "item"] ∧
+    ListOfDicts_head_signature = ["self", "n=None"] ∧ ListOfDicts_tail_signature = ["self", "n=None"] := by
+  refine ⟨rfl, rfl, rfl, rfl, rfl, rfl, rfl, rfl, rfl, rfl, rfl, rfl, rfl, rfl, rfl⟩
+
 example : sliceIdx 5 (some (5 - 0)) none = [] ∧ sliceIdx 5 (some (-0)) none = [0, 1, 2, 3, 4] := by decide
 
 end DI.Tie.C15
